@@ -20,3 +20,18 @@ B("c18-evaluator-side-left", "C18", sub("piecewise_functions.py", 'side="right"'
 B("c18-evaluator-power", "C18", sub("piecewise_functions.py", "* (increment_to_calc**pol)", "* (increment_to_calc ** (pol - 1))"), "E")
 T("c18-new-year-tariff", "C18", resub("parameters/eink_st.yaml", r"(\n  2005-01-01:\n)", r"\n  2004-07-01:\n    deviation_from: previous\n    1:\n      upper_threshold: 12800\n\1"))
 T("c18-evaluator-renamed-locals", "C18", [sub("piecewise_functions.py", "selected_bin", "idx", count=99), sub("piecewise_functions.py", "increment_to_calc", "delta", count=99)])
+
+# ------------------------------------------------------------------ C03
+B("c03-yaml-float-to-int", "C03", sub("parameters/elterngeld.yaml", "    scalar: 75.0\n", "    scalar: 75\n"), "elterngeld_geschwisterbonus_m")
+B("c03-float-rule-returns-comparison", "C03", sub("transfers/elterngeld.py", "    else:\n        out = 0.0\n    return out\n\n\ndef elterngeld_mehrlingsbonus_m", "    else:\n        out = elterngeld_basisbetrag_m > 0\n    return out\n\n\ndef elterngeld_mehrlingsbonus_m"), "elterngeld_geschwisterbonus_m")
+B("c03-int-literal-branch", "C03", resub("transfers/unterhaltsvors.py", r"kind_unterh_erhalt_m,\s*0\.0\s*\)", "kind_unterh_erhalt_m, 0)"), "unterhaltsvors_m")
+B("c03-unwrapped-rule", "C03", sub("functions_loader.py", "vectorized_functions = {fn: _vectorize_func(f) for fn, f in functions.items()}", "vectorized_functions = {fn: (f if fn.startswith('_') else _vectorize_func(f)) for fn, f in functions.items()}"), "P0")
+T("c03-yaml-int-to-float", "C03", sub("parameters/eink_st_abzuege.yaml", "scalar: 4000\n", "scalar: 4000.0\n", count=9))
+T("c03-float-wrap", "C03", sub("transfers/elterngeld.py", "    else:\n        out = 0.0\n    return out\n\n\ndef elterngeld_mehrlingsbonus_m", "    else:\n        out = 0.0\n    return float(out)\n\n\ndef elterngeld_mehrlingsbonus_m"))
+
+# ------------------------------------------------------------------ C08
+B("c08-dropped-key-in-newest-entry", "C08", resub("parameters/sozialv_beitr.yaml", r"(  2023-07-01:\n    deviation_from: previous\n    ges_pflegev:\n      standard: 0.017\n)      zusatz_kinderlos: 0.006\n", r"    ges_pflegev:\n      standard: 0.017\n".replace("    ges_pflegev", "  2023-07-01:\n    ges_pflegev")), "K")
+B("c08-rule-starts-before-its-parameter", "C08", [sub("transfers/rente.py", '@policy_info(end_date="2020-12-31")\ndef ges_rente_m', '@policy_info(end_date="2020-11-30")\ndef ges_rente_m'), sub("transfers/rente.py", 'start_date="2021-01-01"', 'start_date="2020-12-01"', count=1)], "K")
+B("c08-new-argument-without-source", "C08", sub("transfers/kindergeld.py", "def kindergeld_ohne_staffelung_m(\n", "def kindergeld_ohne_staffelung_m(\n    kinderbonus_sonderzahlung_m_hh: float,\n"), "K2")
+B("c08-yaml-date-moved-later", "C08", sub("parameters/ges_rente.yaml", "  2017-01-01:\n    scalar: 0.4\n", "  2017-07-01:\n    scalar: 0.4\n"), "K3")
+T("c08-new-entry-repeating-all-keys", "C08", resub("parameters/kindergeld.yaml", r"(    note: Inflationsausgleichsgesetz\n    scalar: 250\n)", r"\1  2029-01-01:\n    scalar: 280\n"))
